@@ -51,6 +51,8 @@ FEAS_FACTOR = 300.0        # TOL_FEAS = FEAS_FACTOR * sqrt(eps_proj_physical)
 EXACT_PLE_FACTOR = 100.0
 TOL_EXACT_BT = {"se": 1e-3, "re": 2e-2}      # by loss family (squared error / relative entropy)
 TOL_SAME = 1e-12           # "exact same call" agreement
+EPS_TIGHT = 1e-18          # a non-default eps_proj_physical (default 1e-14) given to the tomography: estimates / projections must reach ~sqrt(1e-18)
+REF_FACTOR_TIGHT = 10.0    # for those cases (observed |quara - reference| <= 0.9 sqrt(eps); a run that stops at the default threshold is at 30..85 sqrt(eps))
 REF_FACTOR = 100.0         # |quara projection - independent reference projection| <= REF_FACTOR * sqrt(eps_proj_physical)  (1e-5; observed <= 7e-8)
 TOL_LAST = 1e-11           # defect of the constraint projected last (rounding only; calibration below)
 
@@ -168,7 +170,7 @@ def make_qt(kind, sysname, para, eps_proj=None, m=None, rot=0):
 
 
 def qt_of(case, rot=None):
-    return make_qt(case["kind"], case["sys"], case["para"], m=case.get("m"), rot=case.get("rot", 0) if rot is None else rot)
+    return make_qt(case["kind"], case["sys"], case["para"], eps_proj=case.get("eps"), m=case.get("m"), rot=case.get("rot", 0) if rot is None else rot)
 
 
 def sname(setting):
@@ -586,6 +588,11 @@ def chk_estimate(ctx, case):
                 ctx.violation("estimates", site, "history-flag-changes-result", "%s %s: estimate without iteration history %s differs from the one with history %s" % (
                     kind, label, res2.estimated_var, res.estimated_var), case)
     est = res.estimated_qoperation
+    if float(est.eps_proj_physical) != float(template.eps_proj_physical) or bool(est.on_para_eq_constraint) != bool(para):
+        ctx.violation("estimates", site, "estimate-drops-tomography-setting",
+                      "%s %s para=%s: the estimated object has eps_proj_physical=%r on_para_eq_constraint=%r, the tomography was built with %r / %r" % (
+                          kind, label, para, est.eps_proj_physical, est.on_para_eq_constraint, template.eps_proj_physical, para), case)
+        return
     nontriv = case["data"] != "exact" or case["truth"] != "interior"
     ctx.count("estimates", key=case["id"], nontrivial=nontriv, label="%s:%s:%s:%s:%s" % (kind, label, case["data"], "eq%d-ineq%d" % (int(flags[0]), int(flags[1])), case["order"]))
     bad, er, me = feasibility(ctx, est, B, flags, tol)
@@ -686,6 +693,7 @@ def gen_estimate_cases(ctx):
         cases.append(kw)
 
     datas = [("exact", 1000), ("fewshot", 1), ("fewshot", 3), ("fewshot", 10), ("far", 5)]
+    heavy_n = [0]
     for kind, sysname, mo in settings:
         small = sysname == "1qubit" and kind in ("qst", "povmt")
         heavy = kind == "qmpt" or sysname == "2qubit"
@@ -696,13 +704,15 @@ def gen_estimate_cases(ctx):
                     for truth in (("boundary", "interior", "generic") if data == "exact" else (rng.choice(["boundary", "interior", "generic"]),)):
                         add(kind=kind, sys=sysname, m=mo, para=para, truth=truth, data=data, shots=shots, est="ple", order=order,
                             flags=[True, True], hist=rng.random() < 0.5)
+                        if data != "exact" and rng.random() < 0.15:
+                            cases[-1]["eps"] = EPS_TIGHT          # the tomography is built with a tight eps_proj_physical: feasibility is judged at 300 sqrt(1e-18)
             # loss minimisation
             combos = list(itertools.product(("bt", "mom", "fista"), ("wse", "swse", "wre", "swre")))
             for algo, loss in combos:
                 for data, shots in datas:
                     if quick:
                         # the quick tier samples the grid (every run another sample; the thorough tier runs all of it)
-                        keep = 0.24 if small else (0.05 if heavy else 0.14)
+                        keep = 0.2 if small else (0.04 if heavy else 0.12)
                         if data == "exact" and algo == "bt":
                             keep = 0.7 if small else (0.12 if heavy else 0.4)
                         if rng.random() >= keep:
@@ -719,8 +729,15 @@ def gen_estimate_cases(ctx):
                     maxit = (40 if small else (15 if heavy else 25)) if quick else (300 if small else 120)
                     if data == "exact" and algo == "bt":
                         maxit = max(maxit, 200)
+                    if quick and heavy:
+                        maxit = min(maxit, 12)          # instruments cost up to seconds per iteration with relative entropy; exact recovery for them: thorough tier
+                        heavy_n[0] += 1
+                        if heavy_n[0] > 6:          # instruments cost seconds per run: at most 8 loss-minimisation runs in the quick tier
+                            continue
                     add(kind=kind, sys=sysname, m=mo, para=para, truth=truth, data=data, shots=shots, est="lme", algo=algo, loss=loss,
                         order=rng.choice(["eq_ineq", "ineq_eq"]), flags=fl, maxit=maxit, nohist=rng.random() < 0.3)
+                    if data != "exact" and rng.random() < 0.05:
+                        cases[-1]["eps"] = EPS_TIGHT
                     if data != "exact" and rng.random() < (0.3 if algo == "bt" else 0.12) and (algo == "bt" or not quick):
                         # other stopping modes / windows (exact-recovery tolerances are calibrated for the default).  Momentum / FISTA in a mode that does not
                         # stop on a loss INCREASE can diverge with relative entropy, and then each projection runs into its cap (known finding C10-4; minutes
@@ -741,7 +758,7 @@ def sub_estimates(ctx):
     if os.environ.get("C10_PROFILE"):
         for c in stamp(ctx, cases):
             t0 = _t.time(); ctx.run_cases("estimates", chk_estimate, [c]); dt = _t.time() - t0
-            if dt > 2:
+            if dt > 0.8:
                 print("SLOW %.1fs %s" % (dt, {k: v for k, v in c.items() if k not in ("seed",)}), flush=True)
         return
     ctx.run_cases("estimates", chk_estimate, stamp(ctx, cases))
@@ -799,8 +816,9 @@ def chk_select(ctx, case):
         fn_given = si.func_calc_proj_eq_constraint_with_var(t_para) if case["given"] == 1 else fp.proj_to_self()
         given = (case["given"], int(t_para), 0, 0)
     algo = A(fn_given) if fn_given is not None else A()
+    conv = {"npbool": np.bool_, "int": int}.get(case.get("flagtype"), bool)          # option flags that are == True / False without being the singletons
     for f_, o_, mx_ in cfgs:
-        algo.set_constraint_from_standard_qt_and_option(qt, AO(on_algo_eq_constraint=f_[0], on_algo_ineq_constraint=f_[1], mode_proj_order=o_, max_iteration_proj_physical=mx_))
+        algo.set_constraint_from_standard_qt_and_option(qt, AO(on_algo_eq_constraint=conv(f_[0]), on_algo_ineq_constraint=conv(f_[1]), mode_proj_order=o_, max_iteration_proj_physical=mx_))
     exp = model_installed(m, given, cfgs, t_para, t_order)
     if fn_given is not None:
         ctx.count("select", key=(case["id"], "given"), nontrivial=True, label="given:kept" if algo.func_proj is fn_given else "given:replaced")
@@ -891,7 +909,7 @@ def chk_select_errors(ctx, case):
 def sub_select(ctx):
     rng = ctx.rng
     cases = []
-    settings = S_LIGHT if (not wide(ctx)) else [t for t in S_THOROUGH if t[1] != "2qubit"]
+    settings = S_LIGHT if ctx.quick else [t for t in S_THOROUGH if t[1] != "2qubit"]
     n = 0
     for kind, sysname, mo in settings:
         core = (kind, sysname, mo) in S_CORE or wide(ctx)
@@ -901,7 +919,8 @@ def sub_select(ctx):
                     algos = ("bt", "mom", "fista") if wide(ctx) else (rng.choice(["bt", "mom", "fista"]),)
                     for algo in algos:
                         maxit = rng.choice([1, 2, 100000]) if flags == [True, True] else 100000
-                        cases.append(dict(id="s%d" % n, kind=kind, sys=sysname, m=mo, para=para, algo=algo, flags=flags, order=order, maxit=maxit)); n += 1
+                        cases.append(dict(id="s%d" % n, kind=kind, sys=sysname, m=mo, para=para, algo=algo, flags=flags, order=order, maxit=maxit,
+                                          flagtype=rng.choice(["bool", "bool", "npbool", "int"]))); n += 1
             if not core:
                 continue
             for _ in range((6 if wide(ctx) else 2)):
@@ -1070,6 +1089,161 @@ def sub_reuse_linear(ctx):
         lcases.append(dict(id="v%d" % i, order=rng.choice(["eq_ineq", "ineq_eq"]), jobs=jobs))
     ctx.sample("reuse_linear", lcases[0])
     ctx.run_cases("reuse_linear", chk_reuse_linear, stamp(ctx, lcases))
+
+
+# ------------------------------------------------------------------ sub-check: layouts (memory layout of array arguments; caller modifies returned arrays)
+def _layout(arr, how):
+    a = np.asarray(arr, dtype=float)
+    if how == "strided":          # every second element of a larger buffer
+        buf = np.full(2 * len(a) + 1, 7.5); buf[1::2] = a
+        return buf[1::2]
+    if how == "reversed-view":    # negative stride
+        return a[::-1].copy()[::-1]
+    if how == "readonly":
+        b = a.copy(); b.setflags(write=False)
+        return b
+    if how == "column":           # a column of a C-ordered 2-D array (non-contiguous)
+        m2 = np.full((len(a), 3), -1.25); m2[:, 1] = a
+        return m2[:, 1]
+    return a.copy()
+
+
+def chk_layouts(ctx, case):
+    """the estimate must not depend on the memory layout of the data arrays / of var_start (strided, negative-stride, read-only, column views), must not write
+    into them, and must not change when the caller overwrites the arrays a previous call returned"""
+    Qm = q()
+    rng = case_rng(ctx, case)
+    kind, sysname, para = case["kind"], case["sys"], case["para"]
+    qt, c_sys = qt_of(case)
+    truth = true_object(rng, kind, sysname, c_sys, para, "generic", m=case.get("m"))
+    empi0 = empi_from(qt, truth, rng, case["data"], 3)
+
+    def estimate(empi, var_start=None):
+        with quiet():
+            if case["est"] == "lin":
+                return Qm.LinearEstimator().calc_estimate(qt, empi)
+            if case["est"] == "ple":
+                return Qm.ProjectedLinearEstimator(case["order"]).calc_estimate(qt, empi)
+        extra = {} if var_start is None else {"var_start": var_start}
+        return run_lme(qt, empi, case["algo"], case["loss"], (True, True), case["order"], 12, extra=extra)[0]
+    vs0 = None
+    if case["est"] == "lme":
+        vs0 = np.asarray(true_object(rng, kind, sysname, c_sys, para, "interior", m=case.get("m")).to_var(), dtype=float)
+    base = estimate([(n_, np.array(p_, dtype=float)) for n_, p_ in empi0], None if vs0 is None else vs0.copy())
+    ref = np.array(base.estimated_var, dtype=float, copy=True)
+    site = {"lin": "LinearEstimator.calc_estimate", "ple": "ProjectedLinearEstimator.calc_estimate", "lme": "LossMinimizationEstimator.calc_estimate"}[case["est"]]
+    for how in case.get("hows", ("strided", "reversed-view", "readonly", "column")):
+        arrs = [_layout(p_, how) for _, p_ in empi0]
+        snap = [a.copy() for a in arrs]
+        vs = None if vs0 is None else _layout(vs0, how)
+        try:
+            r = estimate([(n_, a) for (n_, _), a in zip(empi0, arrs)], vs)
+        except ValueError as e:          # e.g. "assignment destination is read-only"
+            ctx.count("layouts", key=(case["id"], how), nontrivial=True, label="%s:%s:raises" % (case["est"], how))
+            ctx.violation("layouts", site, "array-layout:raises", "%s %s para=%s data arrays / var_start given as %s view: %s: %s" % (kind, case["est"], para, how, type(e).__name__, str(e)[:150]), dict(case, how=how))
+            continue
+        got = np.asarray(r.estimated_var, dtype=float)
+        # numpy sums strided / negative-stride arrays in another order: agreement up to rounding amplified by the iterations, not bit for bit
+        same = got.shape == ref.shape and float(np.abs(got - ref).max()) <= 1e-7 * (1 + float(np.abs(ref).max()))
+        untouched = all(np.array_equal(a, b) for a, b in zip(arrs, snap)) and (vs is None or np.array_equal(vs, vs0))
+        ctx.count("layouts", key=(case["id"], how), nontrivial=True, label="%s:%s:%s" % (case["est"], how, "same" if same and untouched else "differs"))
+        if not same:
+            ctx.violation("layouts", site, "array-layout:changes-estimate",
+                          "%s %s para=%s: with the data arrays / var_start given as %s views the estimate is %s, with contiguous copies %s" % (kind, case["est"], para, how, [float(t) for t in got][:6], [float(t) for t in ref][:6]), dict(case, how=how))
+        elif not untouched:
+            ctx.violation("layouts", site, "array-layout:argument-modified", "%s %s para=%s: the %s argument arrays were written to" % (kind, case["est"], para, how), dict(case, how=how))
+    # the caller overwrites what the first call returned; the same computation again must give the same numbers
+    try:
+        np.asarray(base.estimated_var)[...] = 99.0
+    except (ValueError, TypeError):
+        pass
+    again = np.asarray(estimate([(n_, np.array(p_, dtype=float)) for n_, p_ in empi0], None if vs0 is None else vs0.copy()).estimated_var, dtype=float)
+    ctx.count("layouts", key=(case["id"], "overwrite"), nontrivial=True, label="%s:returned-array-overwritten:%s" % (case["est"], "same" if np.array_equal(again, ref) else "differs"))
+    if not np.array_equal(again, ref):
+        ctx.violation("layouts", site, "returned-array-aliases-state", "%s %s para=%s: after the caller overwrote the returned estimated_var the same call returns %s instead of %s" % (
+            kind, case["est"], para, [float(t) for t in again][:6], [float(t) for t in ref][:6]), case)
+
+
+def sub_layouts(ctx):
+    rng = ctx.rng
+    cases = []
+    n = 0
+    for kind, sysname, mo in ([("qst", "1qubit", None), ("povmt", "1qubit", 3), ("qpt", "1qubit", None)] if ctx.quick else S_LIGHT):
+        for est in ("lin", "ple", "lme"):
+            cases.append(dict(id="y%d" % n, kind=kind, sys=sysname, m=mo, para=rng.random() < 0.5, est=est, order=rng.choice(["eq_ineq", "ineq_eq"]),
+                              algo=rng.choice(["bt", "mom", "fista"]), loss=rng.choice(["wse", "swse", "wre", "swre"]), data=rng.choice(["fewshot", "far"]))); n += 1
+            if est == "lme" and ctx.quick:
+                cases[-1]["hows"] = rng.sample(["strided", "reversed-view", "readonly", "column"], 2)
+    ctx.sample("layouts", cases[0])
+    ctx.run_cases("layouts", chk_layouts, stamp(ctx, cases))
+
+
+# ------------------------------------------------------------------ sub-check: settings (explicit object settings != defaults reach every derived object)
+SETTING_ATTRS = ["is_physicality_required", "is_estimation_object", "on_para_eq_constraint", "on_algo_eq_constraint", "on_algo_ineq_constraint",
+                 "mode_proj_order", "eps_proj_physical", "eps_truncate_imaginary_part"]
+GFV_ATTRS = ["is_physicality_required", "is_estimation_object", "on_para_eq_constraint", "on_algo_eq_constraint", "on_algo_ineq_constraint", "eps_proj_physical"]
+
+
+def chk_settings(ctx, case):
+    """An object built with EVERY setting different from its default (thresholds, flags, projection order): copy, zero / origin object, the three
+    projections, + and scalar * keep all eight settings; generate_from_var (the route every estimation result takes) keeps the six it documents and
+    honours each explicit keyword.  The estimators' stopping accuracy lives in these attributes (eps_proj_physical), so a dropped keyword silently
+    changes the accuracy the user asked for."""
+    Qm = q()
+    rng = case_rng(ctx, case)
+    kind, sysname, para = case["kind"], case["sys"], case["para"]
+    qt, c_sys = qt_of(case)
+    t = true_object(rng, kind, sysname, c_sys, para, "generic", m=case.get("m"))
+    ty = type_of(kind)
+    vals = {"state": lambda: t.vec, "povm": lambda: t.vecs, "gate": lambda: t.hs, "mprocess": lambda: t.hss}[ty]()
+    kw = dict(is_physicality_required=False, is_estimation_object=False, on_para_eq_constraint=para, on_algo_eq_constraint=False, on_algo_ineq_constraint=False,
+              mode_proj_order="ineq_eq", eps_proj_physical=case["eps_obj"], eps_truncate_imaginary_part=7e-12)
+    o = type(t)(c_sys, vals, **kw)
+
+    def dropped(x, attrs, want):
+        return [(a, getattr(x, a), want[a]) for a in attrs if getattr(x, a) != want[a]]
+    with quiet():
+        routes = [("copy", o.copy()), ("generate_zero_obj", o.generate_zero_obj()), ("generate_origin_obj", o.generate_origin_obj()),
+                  ("calc_proj_physical", o.calc_proj_physical()), ("calc_proj_eq_constraint", o.calc_proj_eq_constraint()),
+                  ("calc_proj_ineq_constraint", o.calc_proj_ineq_constraint()), ("__add__", o + o), ("__rmul__", 0.5 * o)]
+    for name, x in routes:
+        d = dropped(x, SETTING_ATTRS, kw)
+        ctx.count("settings", key=(case["id"], name), nontrivial=True, label="%s:%s" % (ty, name))
+        if d:
+            ctx.violation("settings", "%s.%s" % (type(t).__name__, name), "drops-object-setting:" + d[0][0],
+                          "%s para=%s: the result of %s has %s (the object was built with %s)" % (ty, para, name, [(a, g) for a, g, _ in d], [(a, w) for a, _, w in d]), case)
+    var = np.asarray(o.to_var(), dtype=float)
+    x = o.generate_from_var(var)
+    d = dropped(x, GFV_ATTRS, kw)
+    ctx.count("settings", key=(case["id"], "gfv"), nontrivial=True, label="%s:generate_from_var" % ty)
+    if d:
+        ctx.violation("settings", "%s.generate_from_var" % type(t).__name__, "drops-object-setting:" + d[0][0],
+                      "%s para=%s: generate_from_var(var) returns an object with %s (the template has %s)" % (ty, para, [(a, g) for a, g, _ in d], [(a, w) for a, _, w in d]), case)
+        return
+    # explicit keywords override the template, one at a time
+    over = dict(is_physicality_required=False, is_estimation_object=True, on_algo_eq_constraint=True, on_algo_ineq_constraint=True, mode_proj_order="eq_ineq",
+                eps_proj_physical=case["eps_obj"] * 3)
+    for a, v in over.items():
+        y = o.generate_from_var(var, **{a: v})
+        want = dict(kw); want[a] = v
+        d = dropped(y, GFV_ATTRS + (["mode_proj_order"] if a == "mode_proj_order" else []), want)
+        ctx.count("settings", key=(case["id"], "gfv", a), nontrivial=True, label="%s:generate_from_var(%s=...)" % (ty, a))
+        if d:
+            ctx.violation("settings", "%s.generate_from_var" % type(t).__name__, "ignores-keyword:" + a,
+                          "%s para=%s: generate_from_var(var, %s=%r) returns an object with %s" % (ty, para, a, v, [(b, g) for b, g, _ in d]), case)
+
+
+def sub_settings(ctx):
+    rng = ctx.rng
+    cases = []
+    n = 0
+    for kind, sysname, mo in (S_LIGHT if ctx.quick else S_THOROUGH):
+        if sysname == "2qubit":
+            continue
+        for para in (True, False):
+            cases.append(dict(id="g%d" % n, kind=kind, sys=sysname, m=mo, para=para, eps_obj=rng.choice([3e-17, 1e-19, 2e-12]))); n += 1
+    ctx.sample("settings", cases[0])
+    ctx.run_cases("settings", chk_settings, stamp(ctx, cases))
 
 
 # ------------------------------------------------------------------ sub-check: origin
@@ -1322,7 +1496,7 @@ def sub_steps(ctx):
     rng = ctx.rng
     cases = []
     # the extracted model evaluates the rational loss exactly: cost grows fast with the number of variables (instruments: thorough tier only)
-    settings = S_CORE if (not wide(ctx)) else S_CORE + [("povmt", "1qutrit", 2)] + ([("qmpt", "1qubit", None), ("qst", "2qubit", None)] if not ctx.quick else [])
+    settings = S_CORE if ctx.quick else S_CORE + [("povmt", "1qutrit", 2), ("qmpt", "1qubit", None), ("qst", "2qubit", None)]
     n = 0
     for kind, sysname, mo in settings:
         for para in (True, False):
@@ -1333,7 +1507,7 @@ def sub_steps(ctx):
                     big = kind in ("qpt", "qmpt") or sysname != "1qubit"
                     cases.append(dict(id="t%d" % n, kind=kind, sys=sysname, m=mo, para=para, algo=algo, data=data, shots=shots,
                                       truth=rng.choice(["boundary", "interior", "generic"]), flags=flags, order=rng.choice(["eq_ineq", "ineq_eq"]),
-                                      maxit=(4 if big else 8) if (not wide(ctx)) else (10 if big else 25))); n += 1
+                                      maxit=(4 if big else 8) if (not wide(ctx)) else ((6 if big else 14) if ctx.quick else (10 if big else 25)))); n += 1
                     # non-default options on about half of the cases: explicit start point, step parameters, stopping mode and window
                     if rng.random() < 0.5:
                         cases[-1]["opts"] = dict(var_start=rng.random() < 0.6, mu=rng.choice([None, 0.7, 1.5]), gamma=rng.choice([None, 0.1]),
@@ -1432,12 +1606,21 @@ def chk_ple(ctx, case):
     # "precisely the physical projection of the linear estimate": against a reference that shares no code with quara's projection routines
     # (ref_proj_physical: numpy Dykstra on the operators rebuilt from the basis), to the stopping accuracy
     ttype, arr_lin = params_of(lin.estimated_qoperation)
-    arr_ref, it_ref, err_ref = ref_proj_physical(ttype, B, arr_lin)
+    eps_qt = float(qt.generate_empty_estimation_obj_with_setting_info().eps_proj_physical)          # the threshold given to the tomography, NOT the estimate's own attribute
+    arr_ref, it_ref, err_ref = ref_proj_physical(ttype, B, arr_lin, tol=max(1e-29, min(1e-26, eps_qt * 1e-10)), maxit=20000)
     d_ref = float(np.abs(params_of(ple.estimated_qoperation)[1] - arr_ref).max())
-    tol_ref = REF_FACTOR * math.sqrt(ple.estimated_qoperation.eps_proj_physical)
+    tol_ref = (REF_FACTOR_TIGHT if case.get("eps") else REF_FACTOR) * math.sqrt(eps_qt)
+    if case.get("eps"):
+        cal("ple_vs_reference_projection/sqrt(eps) [tight eps]", d_ref / math.sqrt(eps_qt))
+    for nm_, o_ in (("LinearEstimator", lin.estimated_qoperation), ("ProjectedLinearEstimator", ple.estimated_qoperation)):
+        if float(o_.eps_proj_physical) != eps_qt or bool(o_.on_para_eq_constraint) != bool(para):
+            ctx.violation("ple", nm_ + ".calc_estimate", "estimate-drops-tomography-setting",
+                          "%s m=%s para=%s: the estimated object has eps_proj_physical=%r on_para_eq_constraint=%r, the tomography was built with %r / %r" % (
+                              kind, arr_lin.shape[0], para, o_.eps_proj_physical, o_.on_para_eq_constraint, eps_qt, para), case)
+            return
     cal("ple_vs_reference_projection", d_ref)
     ctx.count("ple", key=(case["id"], "ref"), nontrivial=moved, label="vs-reference:%s:m=%s:%s" % (kind, arr_lin.shape[0], order))
-    if err_ref > 1e-20:
+    if err_ref > min(1e-20, eps_qt * 1e-4):
         ctx.count("ple", key=(case["id"], "ref-slow"), nontrivial=False, label="reference-not-converged")
     elif d_ref > tol_ref:
         ctx.violation("ple", site, "not-the-physical-projection",
@@ -1473,12 +1656,16 @@ def sub_ple(ctx):
     n = 0
     for kind, sysname, mo in settings:
         for para in (True, False):
-            for order in ("eq_ineq", "ineq_eq"):
+            for order in ("eq_ineq", "ineq_eq") if ((kind, sysname, mo) in S_CORE or not ctx.quick) else (rng.choice(["eq_ineq", "ineq_eq"]),):
                 for data, shots in (("exact", 100), ("fewshot", 1), ("fewshot", 4), ("far", 5)):
                     for rep in range(ctx.n(1, 3)):
                         cases.append(dict(id="p%d" % n, kind=kind, sys=sysname, m=mo, para=para, order=order, data=data, shots=shots,
                                           truth=rng.choice(["boundary", "interior", "generic"]) if data != "exact" else ["boundary", "interior", "generic"][rep % 3] if not ctx.quick else rng.choice(["boundary", "interior", "generic"]),
                                           hist=rng.random() < 0.5)); n += 1
+            # explicit option != default: a tomography built with a tight eps_proj_physical (the estimate must reach THAT accuracy)
+            for data, shots in (("fewshot", 2), ("far", 5)):
+                cases.append(dict(id="p%d" % n, kind=kind, sys=sysname, m=mo, para=para, order=rng.choice(["eq_ineq", "ineq_eq"]), data=data, shots=shots,
+                                  truth=rng.choice(["boundary", "interior", "generic"]), hist=rng.random() < 0.5, eps=EPS_TIGHT)); n += 1
     ctx.sample("ple", cases[0])
     ctx.run_cases("ple", chk_ple, stamp(ctx, cases))
 
@@ -1498,10 +1685,11 @@ def chk_projref(ctx, case):
     var = var0 + np.array([rng.randint(-8, 8) / 10 * case["amp"] for _ in range(len(var0))])
     obj = si.generate_from_var(var)
     ttype, arr = params_of(obj)
-    ref, it_ref, err_ref = ref_proj_physical(ttype, B, arr)
+    eps_qt = float(si.eps_proj_physical)
+    ref, it_ref, err_ref = ref_proj_physical(ttype, B, arr, tol=max(1e-29, min(1e-26, eps_qt * 1e-10)), maxit=20000)
     moved = float(np.abs(ref - arr).max())
-    tol = REF_FACTOR * math.sqrt(si.eps_proj_physical)
-    if err_ref > 1e-20:
+    tol = (REF_FACTOR_TIGHT if case.get("eps") else REF_FACTOR) * math.sqrt(eps_qt)
+    if err_ref > min(1e-20, eps_qt * 1e-4):
         ctx.count("projref", key=case["id"], nontrivial=False, label="reference-not-converged")
         return
     for order in ("eq_ineq", "ineq_eq"):
@@ -1512,7 +1700,7 @@ def chk_projref(ctx, case):
         r_var = si.generate_from_var(np.asarray(v, dtype=float))
         for level, r, site in (("obj", r_obj, "QOperation.calc_proj_physical"), ("var", r_var, "QOperation.calc_proj_physical_with_var")):
             dd = float(np.abs(params_of(r)[1] - ref).max())
-            cal("projection_vs_reference [%s]" % level, dd)
+            cal("projection_vs_reference%s [%s]" % ("/sqrt(eps) tight-eps" if case.get("eps") else "", level), dd / (math.sqrt(eps_qt) if case.get("eps") else 1.0))
             ctx.count("projref", key=(case["id"], order, level), nontrivial=moved > 1e-3, label="%s:m=%s:%s:%s" % (ttype, arr.shape[0], level, order))
             if dd > tol:
                 ctx.violation("projref", site, "not-the-physical-projection",
@@ -1532,6 +1720,7 @@ def sub_projref(ctx):
             for truth, amp in [("boundary", 0.1), ("boundary", 0.03), (rng.choice(["interior", "generic"]), rng.choice([0.3, 1.0, 3.0]))] + \
                     [(rng.choice(["boundary", "interior", "generic"]), rng.choice([0.05, 0.3, 1.0, 3.0])) for _ in range(ctx.n(0, 4))]:
                 cases.append(dict(id="j%d" % n, kind=kind, sys=sysname, m=mo, para=para, truth=truth, amp=amp)); n += 1
+            cases.append(dict(id="j%d" % n, kind=kind, sys=sysname, m=mo, para=para, truth="boundary", amp=0.3, eps=EPS_TIGHT)); n += 1
     ctx.sample("projref", cases[0])
     ctx.run_cases("projref", chk_projref, stamp(ctx, cases))
     ctx.note("projref: max |quara projection - reference| this run: %s" % {k: float("%.3g" % v) for k, v in sorted(CAL.items()) if k.startswith("projection_vs")})
@@ -1598,8 +1787,8 @@ def sub_ineq_var(ctx):
     ctx.run_cases("ineq_var", chk_ineq_var, cases)
 
 
-SUBS = [("select", sub_select), ("reuse", sub_reuse), ("reuse_linear", sub_reuse_linear), ("origin", sub_origin), ("steps", sub_steps), ("run_eq", sub_run_eq), ("ple", sub_ple), ("projref", sub_projref), ("ineq_var", sub_ineq_var), ("estimates", sub_estimates)]
-FNS = {"select": chk_select, "reuse": chk_reuse, "reuse_linear": chk_reuse_linear, "origin": chk_origin, "steps": chk_steps, "run_eq": chk_run_eq, "ple": chk_ple, "projref": chk_projref, "ineq_var": chk_ineq_var, "estimates": chk_estimate}
+SUBS = [("select", sub_select), ("reuse", sub_reuse), ("reuse_linear", sub_reuse_linear), ("settings", sub_settings), ("layouts", sub_layouts), ("origin", sub_origin), ("steps", sub_steps), ("run_eq", sub_run_eq), ("ple", sub_ple), ("projref", sub_projref), ("ineq_var", sub_ineq_var), ("estimates", sub_estimates)]
+FNS = {"select": chk_select, "reuse": chk_reuse, "reuse_linear": chk_reuse_linear, "settings": chk_settings, "layouts": chk_layouts, "origin": chk_origin, "steps": chk_steps, "run_eq": chk_run_eq, "ple": chk_ple, "projref": chk_projref, "ineq_var": chk_ineq_var, "estimates": chk_estimate}
 
 
 # ====================================================================================== translator tie
@@ -1670,9 +1859,12 @@ def run(ctx):
         ctx.c10_tie_broken = True
     if not ok:
         ctx.discharged = min(ctx.discharged, ctx.obligations - 1)
+    import time as _t
+    times = {}
     for name, fn in SUBS:
         if ctx.only is None or name in ctx.only:
-            fn(ctx)
+            t0 = _t.time(); fn(ctx); times[name] = round(_t.time() - t0, 1)
+    ctx.note("wall time per sub-check (s): %s" % times)
     if not ok and not ctx.violations:
         ctx.violation("theorems", "Props/%s.v" % ctx.prop_id, "theorem-broken:%s" % info.get("theorem"),
                       "theorem %s no longer checks: %s" % (info.get("theorem"), info.get("error", "")[-400:]),
